@@ -171,6 +171,28 @@ class Gen:
             return ("for", f"{it} = 0", f"{it} < {guard}", f"{it}++", ("block", body), it, guard, False)
         return ("while", self.cond(), ("block", body))
 
+    def tight_cycle(self):
+        """a loop whose 2-3 assignments multiply/add a small set of variables in a cycle: often no derivation at all,
+        and frequently in a way the delta graph does not detect (the verdict then comes from the choice evaluation)"""
+        vs = self.vars[: self.r.choice([2, 2, 3])]
+        body = []
+        for _ in range(self.r.choice([2, 2, 3])):
+            if self.sites >= self.c.max_sites:
+                break
+            self.sites += 1
+            body.append(("s", f"{self.r.choice(vs)} = {self.r.choice(vs)} {self.r.choice(['*', '*', '+'])} {self.r.choice(vs)};"))
+        loop = ("while", self.cond(), ("block", body or [("s", ";")]))
+        out = []
+        if self.r.random() < 0.3 and self.sites < self.c.max_sites:
+            self.sites += 1
+            out.append(("s", f"{self.r.choice(vs)} = {self.r.choice(vs)} + {self.r.choice(vs)};"))
+        if self.r.random() < 0.3:
+            loop = ("if", self.cond(), ("block", [loop]), ("block", [("s", f"{vs[0]} = {vs[-1]};")]))
+        out.append(loop)
+        if self.r.random() < 0.3:
+            out.append(("s", f"{self.r.choice(vs)} = {self.r.choice(vs)};"))
+        return out
+
     def program(self):
         n = self.r.randrange(1, self.c.max_stmts + 1)
         b = self.c.bias
@@ -182,6 +204,8 @@ class Gen:
             ss += [self.loop(0), self.stmt(0), self.loop(0)]
         elif b == "chain-loop":
             ss += [self.chain_loop()]
+        elif b == "tight-cycle":
+            ss += self.tight_cycle()
         elif b == "loops-in-branches":
             ss += [("if", self.cond(), ("block", [self.stmt(1), self.loop(1)]), ("block", [self.loop(1), self.stmt(1)]))]
             ss += [self.loop(0)]
